@@ -9,6 +9,10 @@ Decided clauses (typestate of the module record):
   R2  the module body runs at most once: SourceTextModule::execute is called only from inner_evaluate / execute_async /
       async_module_execution_fulfilled, and in inner_evaluate not on the arms where the status is already
       Evaluating / EvaluatingAsync / Evaluated
+  R4  [[DFSAncestorIndex]] only decreases while a module is on the stack: every store through the reference handed out by
+      ModuleStatus::ancestor_index_mut writes min(current value, x) — either the result of Ord::min one of whose operands
+      is a load of the same reference, or a value stored under a dominating `x < current` test (Tarjan's low-link; a
+      store that can raise it closes part of a cycle early, so a later failure never reaches those modules)
 Not decided: DFS order, cycle roots, pending-dependency arithmetic.
 """
 from facts import (cn, callee, cname, roots, op_local, place_fields)
@@ -207,7 +211,79 @@ def r3(db, rep):
                "fetched again and could be instantiated twice", loc=f.loc(lb))
 
 
+def r4(db, rep):
+    from facts import provenance
+    rep.rule("R4", "every write through ModuleStatus::ancestor_index_mut stores min(current, x): [[DFSAncestorIndex]] never "
+                   "increases while the module is on the DFS stack")
+    n = 0
+    for f in db.fns.values():
+        if not f.id.startswith("boa_engine::module::source") or not f.mentions("ancestor_index_mut"):
+            continue
+        if cname(f.id).endswith("ancestor_index_mut"):
+            continue
+        k = 0
+        for b in sorted(f.reachable()):
+            for st in f.blocks[b]["s"]:
+                p = st["p"]
+                if len(p) != 2 or p[1] != "*" or "&mut usize" not in f.locals[p[0]]:
+                    continue
+                ref = p[0]
+                prov = provenance(f, ref, extra=("js_expect", "branch", "unwrap", "expect", "ok_or", "ok_or_else"))
+                from_idx = False
+                for q in set(prov) | {ref}:
+                    for bb, i, rr in f.defs().get(q, []):
+                        if i == "t" and cn(rr).endswith("ancestor_index_mut"):
+                            from_idx = True
+                if not from_idx:
+                    continue
+                n += 1
+                r = st["r"]
+                ok = False
+                vl = op_local(r["o"]) if r.get("k") == "use" else None
+                same_ref = lambda o: any(x[0] == "place" and x[1][0] in (set(prov) | {ref}) and x[1][1:] == ["*"]
+                                         for x in (roots(f, op_local(o)) if op_local(o) is not None else []))
+                if vl is not None:
+                    for x in roots(f, vl):
+                        if x[0] == "call" and cn(x[2]).split("::")[-1] == "min" and any(same_ref(a) for a in x[2]["args"]):
+                            ok = True
+                if not ok and vl is not None:
+                    # `if x < *idx { *idx = x }`
+                    from facts import bool_switch
+                    for sb in f.dominators().get(b, ()):
+                        bs = bool_switch(f, sb)
+                        if not bs:
+                            continue
+                        d = f.single_def(bs[0])
+                        if d and d[1] != "t" and d[2].get("k") == "bin" and d[2]["op"] in ("Lt", "Le", "Gt", "Ge"):
+                            a_, b_ = d[2]["a"], d[2]["b"]
+                            val_roots = {json_key(x) for x in roots(f, vl)}
+                            la, lb = op_local(a_), op_local(b_)
+                            a_is_val = la is not None and {json_key(x) for x in roots(f, la)} & val_roots
+                            b_is_val = lb is not None and {json_key(x) for x in roots(f, lb)} & val_roots
+                            less_edge = None
+                            if d[2]["op"] in ("Lt", "Le") and a_is_val and same_ref(b_):
+                                less_edge = bs[2]
+                            if d[2]["op"] in ("Gt", "Ge") and b_is_val and same_ref(a_):
+                                less_edge = bs[2]
+                            if less_edge is not None and b in f.reach_from([less_edge], avoid={sb}) and \
+                                    b not in f.reach_from([bs[1]], avoid={sb}):
+                                ok = True
+                rep.ob("R4", f"{cname(f.id)}:ancestor-index-store:{k}:min-update", ok,
+                       f"{cname(f.id)} writes [[DFSAncestorIndex]] ({f.file}:{st.get('ln')}) with a value that is not "
+                       f"min(current, x): a second back edge can raise the index again, part of a cycle is then closed early and "
+                       f"marked evaluated, and a later error in the rest of the cycle never reaches those modules",
+                       loc=f"{f.file}:{st.get('ln')}")
+                k += 1
+    rep.floor("R4", "stores through ancestor_index_mut", n, 2)
+
+
+def json_key(x):
+    import json
+    return json.dumps(x, sort_keys=True, default=str)
+
+
 def run(db, rep, tier):
     r1(db, rep)
     r2(db, rep)
     r3(db, rep)
+    r4(db, rep)
